@@ -59,10 +59,37 @@ func Worker(jobPath string) error {
 	classes := map[string]bool{}
 	start := time.Now()
 	maxWall := time.Duration(job.MaxWallS) * time.Second
+	lastFlush := time.Now()
+	flush := func(done bool) error {
+		res.Sigs = res.Sigs[:0]
+		for s := range sigs {
+			res.Sigs = append(res.Sigs, s)
+		}
+		res.Inter = res.Inter[:0]
+		for s := range inter {
+			res.Inter = append(res.Inter, s)
+		}
+		res.WallS = time.Since(start).Seconds()
+		res.Done = done
+		ob, _ := json.Marshal(&res)
+		if err := os.WriteFile(job.Out+".tmp", ob, 0o644); err != nil {
+			return err
+		}
+		return os.Rename(job.Out+".tmp", job.Out)
+	}
 	for i := job.Start; i < job.Count; i += job.Stride {
 		if maxWall > 0 && time.Since(start) > maxWall {
 			res.CutShort = true
 			break
+		}
+		if time.Since(lastFlush) > 2*time.Second {
+			flush(false)
+			lastFlush = time.Now()
+		}
+		os.WriteFile(job.Out+".cur", []byte(strconv.Itoa(i)), 0o644)
+		if os.Getenv("PQSIM_TEST_CRASH") == strconv.Itoa(i) { // self-test of the crash path
+			go func() { panic("pqsim: deliberate crash (PQSIM_TEST_CRASH)") }()
+			time.Sleep(time.Second)
 		}
 		runSeed := tape.Mix(job.BaseSeed, job.Prop, i)
 		t := tape.New(runSeed)
@@ -108,21 +135,16 @@ func Worker(jobPath string) error {
 			res.Found = append(res.Found, f)
 		}
 	}
-	for s := range sigs {
-		res.Sigs = append(res.Sigs, s)
-	}
-	for s := range inter {
-		res.Inter = append(res.Inter, s)
-	}
-	res.WallS = time.Since(start).Seconds()
-	ob, _ := json.Marshal(&res)
-	return os.WriteFile(job.Out, ob, 0o644)
+	return flush(true)
 }
 
 func shrinkAndSave(p core.Prop, job *core.Job, idx int, runSeed uint64, vals []uint32, origSc any, v *core.Violation) core.Found {
 	maxExec, maxWall := 300, 45*time.Second
 	if job.Tier == "thorough" {
 		maxExec, maxWall = 600, 90*time.Second
+	}
+	if p.Info().Level == "fault_enumeration" {
+		maxExec, maxWall = maxExec/3, maxWall/2
 	}
 	minTape, st := core.Shrink(p, job.Tier, vals, v.Class, maxExec, maxWall)
 	// final run on the minimised tape, with the log kept
@@ -318,6 +340,13 @@ func Driver(propID, tier string, baseSeed uint64) int {
 	m.Faults = map[string]int{}
 	variantsRun := []string{}
 	trouble := false
+	type crashed struct {
+		idx     int
+		kind    string
+		variant string
+		log     string
+	}
+	var crashes []crashed
 	for _, bt := range batches {
 		variantsRun = append(variantsRun, bt.variant)
 		var wg sync.WaitGroup
@@ -332,58 +361,95 @@ func Driver(propID, tier string, baseSeed uint64) int {
 			wg.Add(1)
 			go func(job core.Job, jp string) {
 				defer wg.Done()
-				cmd := exec.Command(bt.exe, "-test.run", "^TestWorker$", "-test.timeout", "0")
-				cmd.Env = append(os.Environ(), "PQSIM_MODE=worker", "PQSIM_JOB="+jp, "GOMAXPROCS=2", "GORACE=halt_on_error=1 exitcode=66", "PQSIM_VARIANT="+bt.variant)
-				logf, _ := os.Create(jp + ".log")
-				cmd.Stdout = logf
-				cmd.Stderr = logf
-				done := make(chan error, 1)
-				if err := cmd.Start(); err != nil {
-					mu.Lock()
-					trouble = true
-					mu.Unlock()
-					fmt.Fprintln(os.Stderr, "pqsim: cannot start worker:", err)
-					return
-				}
-				go func() { done <- cmd.Wait() }()
-				limit := bud.MaxWall*2 + 3*time.Minute
-				select {
-				case <-done:
-				case <-time.After(limit):
-					cmd.Process.Kill()
-					<-done
-					mu.Lock()
-					trouble = true
-					mu.Unlock()
-					fmt.Fprintf(os.Stderr, "pqsim: worker %d exceeded the watchdog limit %v and was killed (log: see below)\n", job.Start, limit)
-				}
-				logf.Close()
-				rb, err := os.ReadFile(job.Out)
-				if err != nil {
-					mu.Lock()
-					trouble = true
-					mu.Unlock()
+				deadline := time.Now().Add(bud.MaxWall*2 + 3*time.Minute)
+				for attempt := 0; attempt < 4; attempt++ {
+					jb, _ := json.Marshal(&job)
+					os.WriteFile(jp, jb, 0o644)
+					os.Remove(job.Out)
+					os.Remove(job.Out + ".cur")
+					cmd := exec.Command(bt.exe, "-test.run", "^TestWorker$", "-test.timeout", "0")
+					cmd.Env = append(os.Environ(), "PQSIM_MODE=worker", "PQSIM_JOB="+jp, "GOMAXPROCS=2", "GORACE=halt_on_error=1 exitcode=66", "PQSIM_VARIANT="+bt.variant)
+					logf, _ := os.Create(jp + ".log")
+					cmd.Stdout = logf
+					cmd.Stderr = logf
+					done := make(chan error, 1)
+					if err := cmd.Start(); err != nil {
+						mu.Lock()
+						trouble = true
+						mu.Unlock()
+						fmt.Fprintln(os.Stderr, "pqsim: cannot start worker:", err)
+						return
+					}
+					go func() { done <- cmd.Wait() }()
+					hung := false
+					select {
+					case <-done:
+					case <-time.After(time.Until(deadline)):
+						cmd.Process.Kill()
+						<-done
+						hung = true
+					}
+					logf.Close()
+					var wr core.WorkerResult
+					rb, err := os.ReadFile(job.Out)
+					if err == nil {
+						err = json.Unmarshal(rb, &wr)
+					}
+					if err == nil {
+						mu.Lock()
+						m.merge(&wr)
+						mu.Unlock()
+						if wr.Done {
+							return
+						}
+					}
+					// the worker died (fatal error, runtime crash, kill) or was stopped by the watchdog
+					cur := -1
+					if cb, err := os.ReadFile(job.Out + ".cur"); err == nil {
+						cur, _ = strconv.Atoi(string(cb))
+					}
 					lb, _ := os.ReadFile(jp + ".log")
 					tail := string(lb)
-					if len(tail) > 3000 {
-						tail = tail[len(tail)-3000:]
+					if len(tail) > 1500 {
+						tail = tail[:1500]
 					}
-					fmt.Fprintf(os.Stderr, "pqsim: worker %d (%s) produced no result:\n%s\n", job.Start, bt.variant, tail)
-					return
-				}
-				var wr core.WorkerResult
-				if err := json.Unmarshal(rb, &wr); err != nil {
+					if cur < 0 {
+						mu.Lock()
+						trouble = true
+						mu.Unlock()
+						fmt.Fprintf(os.Stderr, "pqsim: worker %d (%s) died before its first run:\n%s\n", job.Start, bt.variant, tail)
+						return
+					}
+					kind := "crash"
+					if hung {
+						kind = "hang"
+					}
 					mu.Lock()
-					trouble = true
+					crashes = append(crashes, crashed{idx: cur, kind: kind, variant: bt.variant, log: tail})
 					mu.Unlock()
-					return
+					if hung {
+						return
+					}
+					job.Start = cur + job.Stride
 				}
-				mu.Lock()
-				m.merge(&wr)
-				mu.Unlock()
 			}(job, jp)
 		}
 		wg.Wait()
+	}
+
+	// workers that died: the run in progress becomes a crash/hang candidate,
+	// confirmed below by replaying that scenario alone in a fresh process
+	for _, cr := range crashes {
+		runSeed := tape.Mix(baseSeed, propID, cr.idx)
+		t := tape.New(runSeed)
+		sc := p.Gen(t, tier)
+		scJSON, _ := json.Marshal(sc)
+		r := &core.Replay{Property: propID, Class: propID + "/" + cr.kind, Detail: "worker process " + cr.kind + " while executing this scenario: " + firstLines(cr.log, 6),
+			BaseSeed: baseSeed, RunIndex: cr.idx, RunSeed: runSeed, Tier: tier, Variant: cr.variant, Tape: t.Values(), Scenario: scJSON}
+		os.MkdirAll(replayDir, 0o755)
+		path := filepath.Join(replayDir, fmt.Sprintf("%s-%d-%d-%s-%s.json", propID, baseSeed, cr.idx, cr.variant, cr.kind))
+		core.WriteReplay(path, r)
+		m.Found = append(m.Found, core.Found{Class: r.Class, Detail: r.Detail, Replay: path, RunIndex: cr.idx, RunSeed: runSeed, Variant: cr.variant})
 	}
 
 	// violations: dedupe by class, confirm each replay in a fresh process
@@ -424,6 +490,9 @@ func Driver(propID, tier string, baseSeed uint64) int {
 			continue
 		}
 		code := runReplayProcess(exeFor(f.Variant), f.Replay)
+		if (strings.HasSuffix(f.Class, "/crash") && code == 3) || (strings.HasSuffix(f.Class, "/hang") && code == 4) {
+			code = 1
+		}
 		switch code {
 		case 1:
 			violations++
@@ -467,21 +536,49 @@ func Driver(propID, tier string, baseSeed uint64) int {
 func runReplayProcess(exe, path string) int {
 	cmd := exec.Command(exe, "-test.run", "^TestNothing$")
 	cmd.Env = append(os.Environ(), "PQSIM_MODE=replay", "PQSIM_REPLAY="+path, "PQSIM_QUIET=1", "GORACE=halt_on_error=1 exitcode=66")
-	out, err := cmd.CombinedOutput()
+	var buf strings.Builder
+	cmd.Stdout = &buf
+	cmd.Stderr = &buf
+	if err := cmd.Start(); err != nil {
+		return 2
+	}
+	done := make(chan error, 1)
+	go func() { done <- cmd.Wait() }()
+	var err error
+	select {
+	case err = <-done:
+	case <-time.After(3 * time.Minute):
+		cmd.Process.Kill()
+		<-done
+		return 4 // hang
+	}
 	if err == nil {
 		return 0
 	}
 	if ee, ok := err.(*exec.ExitError); ok {
-		if ee.ExitCode() != 1 {
-			s := string(out)
-			if len(s) > 2000 {
-				s = s[len(s)-2000:]
-			}
-			fmt.Fprintf(os.Stderr, "%s\n", s)
+		code := ee.ExitCode()
+		if code == 1 {
+			return 1
 		}
-		return ee.ExitCode()
+		out := buf.String()
+		if len(out) > 2000 {
+			out = out[:2000]
+		}
+		fmt.Fprintf(os.Stderr, "%s\n", out)
+		if code == 0 || code == 2 {
+			return 2
+		}
+		return 3 // crash: fatal error, signal, race-detector exit code
 	}
 	return 2
+}
+
+func firstLines(s string, n int) string {
+	lines := strings.Split(s, "\n")
+	if len(lines) > n {
+		lines = lines[:n]
+	}
+	return strings.Join(lines, " | ")
 }
 
 func (m *merged) merge(w *core.WorkerResult) {
